@@ -451,6 +451,20 @@ def check(ctx):
                unproven=any("?" in w for w in wrong), detail="; ".join(wrong),
                stmt="dispatch conditions " + "; ".join(wrong))
 
+    # re-wiring a variable (what the helpers do to the original variable) leaves its role
+    # flags alone: Var.transform reads `self.parameter` AFTER the helper ran
+    FLAGS = {"_parameter", "_observed", "_role", "_auto_transform", "parameter", "observed",
+             "role", "auto_transform"}
+    for sname in ("value_node", "dist_node"):
+        sfi = var_cls.own_method(sname, "setter")
+        if sfi is None:
+            continue
+        rs_ = evaluate(repo, sfi)
+        wr = sorted({loc[2] for loc, _, _, _ in rs_.stores
+                     if loc[0] == "a" and loc[1] == SELF and loc[2] in FLAGS})
+        ctx.ob("C14.R2", sfi, f"assigning Var.{sname} writes none of the variable's role flags "
+                              f"(parameter / observed / role / auto_transform)", not wr,
+               detail=str(wr), stmt=f"{sname} setter writes {wr}")
     # ------------------------------------------------------------------ R3
     bm = repo.func(f"{MODEL}.GraphBuilder.build_model")
     rbm = evaluate(repo, bm)
